@@ -85,6 +85,7 @@ func init() {
 			ruleTypeIdentity(c, "C06.6", genPkg)
 			ruleErrorCheckTemplates(c, "C06.7")
 			ruleClosedEmission(c, "C06.8")
+			ruleHandlerDiscipline(c, "C06.9")
 			coRun(c, "C06.4", coErrors)
 		},
 		explanation: "GS: the error check is appended after the call and before the close (a failed provider never releases its dependants); a fallible call always gets a returning handler (handler is nil only when the injector has no error result, and the injector has one whenever a scheduled provider is fallible); classification of which error expression can reach which return context (provider error anywhere; ctx.Err() only inside goroutines); the wait discipline that keeps dependants behind their producers (IsWait table, sticky channel flag, guards). " +
@@ -103,6 +104,8 @@ func init() {
 			ruleIsContextType(c, "C07.5")
 			ruleParamsNamedFirst(c, "C07.5")
 			ruleClosedEmission(c, "C07.6")
+			ruleHandlerDiscipline(c, "C07.7")
+			ruleSameContextPredicate(c, "C07.4")
 			coRun(c, "C07.2", coCancellation)
 		},
 		explanation: "GS: the wait flavour per context (select with ctx.Done() vs plain receive) as a truth table over 'a context exists' and 'a handler exists'; the Wait result is kept exactly when the injector has an error result; errgroup.WithContext receives the context parameter and the 'context exists' predicate is the same at both sites; injectContextArg runs on every Build path. " +
@@ -120,6 +123,8 @@ func init() {
 			ruleConstQualifiersBound(c, "C08.2")
 			ruleParamsNamedFirst(c, "C08.4")
 			ruleClosedEmission(c, "C08.5")
+			ruleHandlerDiscipline(c, "C08.6")
+			ruleSameContextPredicate(c, "C08.7")
 			coRun(c, "C08.3", coLeaks)
 		},
 		explanation: "GS: every return template that can sit at injector level is either preceded by eg.Wait or emitted only without goroutines; goroutine bodies contain only escapable waits (their handler is the constant goroutine-level one, every wait gets its ctx.Done() case whenever some argument is a context, and the errgroup is derived from that context so a failure wakes the waiters). CO: for each early return of the 36 injectors, the goroutines that can still be parked on a barrier only the returning thread would lower.",
